@@ -9,5 +9,10 @@ NoPairs == {}
 ExpireCA == {<<"C", "A">>}
 ExpireCB == {<<"C", "B">>}
 RuleSetsGen == { {}, {<<"A", "C", "mock">>}, {<<"*", "*", "*">>}, {<<"A", "*", "mock">>, <<"C", "A", "*">>},
-                 {<<"*", "C", "nft">>}, {<<"C", "A", "mock">>} }
+                 {<<"*", "C", "nft">>}, {<<"C", "A", "mock">>},
+                 \* near misses: "X<" / "X>" = the name X without its first / last character (another identifier); in whatever
+                 \* order the three rules are stored, a prefix, suffix, substring or unanchored-pattern comparison takes one
+                 \* of them for (A, C, mock)
+                 {<<"A", "C", "mock>">>, <<"A<", "C", "mock">>, <<"A<", "C", "mock>">>},
+                 {<<"C", "A", "mock>">>, <<"C<", "A", "mock">>, <<"C<", "A", "mock>">>, <<"A", "C", "mock">>} }
 =============================================================================
